@@ -168,8 +168,11 @@ def c09_bounded(tier, seed):
             ir2, m2, bi2, blocks2, fl2 = scen.build(shape)
             order = sorted(range(len(edits)), key=lambda i: (blocks2[edits[i][4]].address, edits[i][1], i))
             sexc = None
-            # apply from the highest address down so that earlier offsets stay valid (same final listing as address order)
-            for i in reversed(order):
+            # blocks in address order (the order matters when labels slide from a deleted block into a block that a later
+            # modification deletes with retarget_to_proxy); within ONE block from the highest offset down, so that the
+            # remaining offsets of that block stay valid (same final listing as address order)
+            seq_order = sorted(order, key=lambda i: (blocks2[edits[i][4]].address, -edits[i][1], -i))
+            for i in seq_order:
                 e = edits[i]
                 import gtirb_functions
                 fl2 = gtirb_functions.Function.build_functions(m2) if shape.funcs else []
@@ -357,6 +360,23 @@ for shape, edits in driver.scenario_space("quick", %(seed)d, kinds=%(kinds)r, pa
         out.append((repr(shape), repr(edits), hashlib.sha1(_dump(ir, drop=()).encode()).hexdigest()))
     except Exception as ex:
         out.append((repr(shape), repr(edits), "EXC " + type(ex).__name__))
+# patches with register / stack / flags requirements: the prologue and epilogue (spill order, scratch choice) are part of the result
+import itertools
+from gtirb_rewriting import Patch, patch_constraints, Constraints
+for pcs, nscr, clob, flags, align, off in itertools.product((False, True), (0, 2), ((), ("rax", "rdx"), ("r11", "rcx", "rsi")), (False, True), (False, True), (0, 1)):
+    ir, m, bi, blocks, fl = scen.build(scen.Shape("call", True))
+    rc = RW.RewritingContext(m, fl)
+    @patch_constraints(preserve_caller_saved_registers=pcs, scratch_registers=nscr, clobbers_registers=clob, clobbers_flags=flags, align_stack=align)
+    def pat(ctx, *scratch):
+        return "nop" + "".join("\nmovq $1, %%%%%%s" %% r for r in scratch)
+    rc.insert_at(blocks[1], off, Patch.from_function(pat))
+    key = repr(("constraints", pcs, nscr, clob, flags, align, off))
+    try:
+        rc.apply()
+        import hashlib
+        out.append((key, "", hashlib.sha1(_dump(ir, drop=()).encode()).hexdigest()))
+    except Exception as ex:
+        out.append((key, "", "EXC " + type(ex).__name__))
 print(json.dumps(out))
 '''
 
@@ -367,7 +387,7 @@ def c11_bounded(tier, seed):
         seeds = [0, 1, 12345] if tier == "quick" else [0, 1, 2, 3, 12345, 99999]
         stride = 3 if tier == "quick" else 1
         kinds = ["plain", "call", "jcc"] if tier == "quick" else None
-        br.bound = "every %d-th scenario of the bounded space (kinds %s), each executed in fresh interpreters with PYTHONHASHSEED in %s; canonical UUID-free dumps (temporary-label names included) compared" % (stride, kinds or "all", seeds)
+        br.bound = "every %d-th scenario of the bounded space (kinds %s), each executed in fresh interpreters with PYTHONHASHSEED in %s; canonical UUID-free dumps (temporary-label names included) compared; plus 96 insertions of a patch with register / stack / flags constraints (preserve_caller_saved_registers, scratch registers, clobbers, flags, alignment)" % (stride, kinds or "all", seeds)
         br.clauses = ["C11/same-result-under-different-hash-seeds"]
         results = []
         code = _CHILD % {"root": ROOT, "seed": seed, "kinds": kinds, "stride": stride}
